@@ -1,6 +1,93 @@
+//! unitx - exhaustive function-domain harness for wild.
+//!
+//!   unitx alignment|immfield|relrange [--tier quick|thorough]
+//!   unitx replay-alignment|replay-immfield|replay-relrange <case.json>
+//!   unitx tables            (dump wild's relocation tables as this harness sees them)
+//!
+//! Every sub-command prints one JSON object on stdout.
+
+mod align;
+mod immfield;
+mod manual;
+mod relrange;
+mod report;
+
+use serde_json::Value;
+use serde_json::json;
+use std::time::Instant;
+
 fn main() {
-    println!("{:?}", libwild::verif::api::alignment_new(8));
-    println!("{:?}", linker_utils::x86_64::relocation_from_raw(1).is_some());
-    let v: Vec<u64> = { use rayon::prelude::*; (0..4u64).into_par_iter().map(|x| x * 2).collect() };
-    println!("{}", serde_json::json!({"v": v}));
+    // Panics of the functions under test are caught and reported as violations; keep stderr quiet.
+    std::panic::set_hook(Box::new(|_| {}));
+    let args: Vec<String> = std::env::args().skip(1).collect();
+    let Some(cmd) = args.first().map(String::as_str) else {
+        usage();
+    };
+    let mut tier = "quick".to_owned();
+    let mut positional = Vec::new();
+    let mut i = 1;
+    while i < args.len() {
+        if args[i] == "--tier" && i + 1 < args.len() {
+            tier = args[i + 1].clone();
+            i += 2;
+        } else {
+            positional.push(args[i].clone());
+            i += 1;
+        }
+    }
+    let thorough = tier == "thorough";
+    rayon::ThreadPoolBuilder::new()
+        .num_threads(std::env::var("UNITX_THREADS").ok().and_then(|s| s.parse().ok()).unwrap_or(16))
+        .build_global()
+        .unwrap();
+    let t0 = Instant::now();
+    let rep = match cmd {
+        "alignment" => align::run(thorough),
+        "immfield" => immfield::run(thorough),
+        "relrange" => relrange::run(thorough),
+        "replay-alignment" => align::replay(&load_case(&positional)),
+        "replay-immfield" => immfield::replay(&load_case(&positional)),
+        "replay-relrange" => relrange::replay(&load_case(&positional)),
+        "tables" => {
+            println!("{}", tables());
+            return;
+        }
+        _ => usage(),
+    };
+    println!("{}", rep.to_json(cmd, &tier, t0.elapsed().as_secs_f64()));
+}
+
+fn usage() -> ! {
+    eprintln!("usage: unitx alignment|immfield|relrange [--tier quick|thorough] | replay-<cmd> <case.json> | tables");
+    std::process::exit(2);
+}
+
+/// The case file is either the replay object itself or a /verif/replays file wrapping it.
+fn load_case(positional: &[String]) -> Value {
+    let Some(path) = positional.first() else {
+        usage();
+    };
+    let text = std::fs::read_to_string(path).unwrap_or_else(|e| {
+        eprintln!("unitx: cannot read {path}: {e}");
+        std::process::exit(2);
+    });
+    let v: Value = serde_json::from_str(&text).unwrap_or_else(|e| {
+        eprintln!("unitx: {path}: {e}");
+        std::process::exit(2);
+    });
+    if v.get("replay").is_some_and(Value::is_object) { v["replay"].clone() } else { v }
+}
+
+fn tables() -> Value {
+    let mut out = Vec::new();
+    for arch in manual::ARCHS {
+        for r_type in 0..=1023u32 {
+            if let Some(info) = relrange::info_for(arch, r_type) {
+                out.push(json!({"arch": arch, "r_type": r_type, "name": relrange::type_name(arch, r_type),
+                    "kind": format!("{:?}", info.kind), "size": format!("{:?}", info.size),
+                    "range": [info.range.min.to_string(), info.range.max.to_string()], "alignment": info.alignment, "bias": info.bias}));
+            }
+        }
+    }
+    json!(out)
 }
